@@ -184,6 +184,135 @@ class Package:
             cache[cls] = out
         return cache[cls]
 
+    # ---- class-level constants -------------------------------------------------
+    def class_constants(self, cls: str) -> dict:
+        """{attr: literal AST node} of the class-level names of `cls` (MRO) that are CONSTANTS: bound in the class body to a
+        literal (str / number / bool / None, a tuple / list / set display of such, `re.compile(<constants>)`, `frozenset(<display>)`)
+        and never re-bound or edited anywhere in the package -- no store or delete to `<x>.attr`, no `<x>.attr[..] = ..`, no mutator
+        call `<x>.attr.append(..)`, no `setattr(<x>, "attr", ..)`.  `self.attr` / `cls.attr` / `Cls.attr` then IS that literal
+        (`x in self._names` is `x in ("a", "b")`): a literal moved into a class-level constant is read like the literal."""
+        cache = self.__dict__.setdefault("_class_consts", {})
+        if cls in cache:
+            return cache[cls]
+        from .normalize import MUTATORS
+
+        def lit(v, depth=0):
+            if isinstance(v, ast.Constant):
+                return True
+            if isinstance(v, ast.UnaryOp) and isinstance(v.op, (ast.USub, ast.UAdd)) and isinstance(v.operand, ast.Constant):
+                return True
+            if isinstance(v, (ast.Tuple, ast.List, ast.Set)) and depth < 2:
+                return all(lit(e, depth + 1) for e in v.elts)
+            if isinstance(v, ast.Call) and ast.unparse(v.func) in ("re.compile", "frozenset", "tuple") and not v.keywords and depth < 1:
+                return all(lit(a, depth + 1) for a in v.args)
+            return False
+        touched = self.__dict__.get("_touched_attrs")
+        if touched is None:
+            touched = set()
+            for mod in self.modules.values():
+                for n in ast.walk(mod):
+                    if isinstance(n, ast.Attribute) and isinstance(n.ctx, (ast.Store, ast.Del)):
+                        touched.add(n.attr)
+                    elif isinstance(n, ast.Subscript) and isinstance(n.ctx, (ast.Store, ast.Del)) and isinstance(n.value, ast.Attribute):
+                        touched.add(n.value.attr)
+                    elif isinstance(n, ast.Call) and isinstance(n.func, ast.Attribute) and n.func.attr in MUTATORS and isinstance(n.func.value, ast.Attribute):
+                        touched.add(n.func.value.attr)
+                    elif isinstance(n, ast.Call) and isinstance(n.func, ast.Name) and n.func.id in ("setattr", "delattr") and len(n.args) >= 2:
+                        touched.add(n.args[1].value if isinstance(n.args[1], ast.Constant) else "*")
+                    elif isinstance(n, ast.AugAssign) and isinstance(n.target, ast.Attribute):
+                        touched.add(n.target.attr)
+            self.__dict__["_touched_attrs"] = touched
+            # a MUTABLE display (list / set) stays constant only if its object never escapes: every read `<x>.attr` is consumed on
+            # the spot (membership test, iteration, len / tuple / sorted / .., subscript read, unpacking) -- never bound to a
+            # name, passed to a helper, returned or stored
+            escaped = set()
+            SAFE_CALLS = {"len", "tuple", "sorted", "set", "frozenset", "list", "any", "all", "enumerate", "zip", "min", "max", "sum", "reversed", "iter"}
+            for mod in self.modules.values():
+                parent = {}
+                for n in ast.walk(mod):
+                    for ch in ast.iter_child_nodes(n):
+                        parent[id(ch)] = n
+                for n in ast.walk(mod):
+                    if not (isinstance(n, ast.Attribute) and isinstance(n.ctx, ast.Load)):
+                        continue
+                    p_ = parent.get(id(n))
+                    ok = (isinstance(p_, ast.Compare) and n in p_.comparators and all(isinstance(o, (ast.In, ast.NotIn)) for o in p_.ops)) \
+                        or (isinstance(p_, (ast.For, ast.comprehension)) and p_.iter is n) \
+                        or (isinstance(p_, ast.Call) and isinstance(p_.func, ast.Name) and p_.func.id in SAFE_CALLS and n in p_.args) \
+                        or (isinstance(p_, ast.Subscript) and p_.value is n and isinstance(p_.ctx, ast.Load)) \
+                        or (isinstance(p_, ast.Attribute) and p_.value is n) \
+                        or isinstance(p_, ast.Starred)
+                    if not ok:
+                        escaped.add(n.attr)
+            self.__dict__["_escaped_attrs"] = escaped
+        escaped = self.__dict__["_escaped_attrs"]
+
+        def mutable(v):
+            return isinstance(v, (ast.List, ast.Set)) or (isinstance(v, ast.Tuple) and any(mutable(e) for e in v.elts))
+        out = {}
+        if "*" not in touched:
+            for c in reversed(self.mro(cls)):
+                ci = self.classes.get(c)
+                if not ci:
+                    continue
+                # a name bound twice in the class body, or that is also a method / nested class, is not a constant
+                counts = {}
+                for s in ci.node.body:
+                    for t in (s.targets if isinstance(s, ast.Assign) else [s.target] if isinstance(s, (ast.AnnAssign, ast.AugAssign)) else []):
+                        for x in ast.walk(t):
+                            if isinstance(x, ast.Name):
+                                counts[x.id] = counts.get(x.id, 0) + 1
+                for k, v in ci.attrs.items():
+                    out.pop(k, None)
+                    if counts.get(k) == 1 and k not in touched and k not in ci.methods and k not in ci.nested and lit(v) and not (mutable(v) and k in escaped):
+                        out[k] = v
+                for k in list(ci.methods) + list(ci.nested):
+                    out.pop(k.split(".")[0], None)
+        cache[cls] = out
+        return out
+
+    def constants_folded(self, cls: str, fn: ast.FunctionDef) -> ast.FunctionDef:
+        """a copy of `fn` (a method of `cls`) with every read of a class-level constant (class_constants) through the receiver
+        (first parameter), `cls` or the class name replaced by the literal"""
+        import copy
+        consts = self.class_constants(cls)
+        if not consts:
+            return fn
+        recv = {fn.args.args[0].arg} if fn.args.args else set()
+        recv |= {cls.split(".")[-1], "cls", "self"}
+        bound = {n.id for n in ast.walk(fn) if isinstance(n, ast.Name) and isinstance(n.ctx, ast.Store)} | {a.arg for a in fn.args.args[1:]}
+        recv -= bound
+
+        class R(ast.NodeTransformer):
+            def visit_Attribute(self, n):
+                self.generic_visit(n)
+                if isinstance(n.ctx, ast.Load) and isinstance(n.value, ast.Name) and n.value.id in recv and n.attr in consts:
+                    return ast.copy_location(copy.deepcopy(consts[n.attr]), n)
+                return n
+        return ast.fix_missing_locations(R().visit(copy.deepcopy(fn)))
+
+    def records(self) -> dict:
+        """{class name: (field, ...)} of the immutable record types of the package: `class X(NamedTuple)` with annotated fields,
+        `X = namedtuple("X", "a b" | ["a", "b"])`.  `X(u, v).a` is `u` (valueflow.Flow(records=..))."""
+        if "_records" not in self.__dict__:
+            out = {}
+            for ci in self.classes.values():
+                if any(b.split(".")[-1] == "NamedTuple" for b in ci.bases) and "." not in ci.name:
+                    fields = [s.target.id for s in ci.node.body if isinstance(s, ast.AnnAssign) and isinstance(s.target, ast.Name)]
+                    if fields and "__new__" not in ci.methods:
+                        out[ci.name] = tuple(fields)
+            for mod in self.modules.values():
+                for s in mod.body:
+                    if isinstance(s, ast.Assign) and len(s.targets) == 1 and isinstance(s.targets[0], ast.Name) and isinstance(s.value, ast.Call) \
+                            and ast.unparse(s.value.func) in ("namedtuple", "collections.namedtuple") and len(s.value.args) == 2 and not s.value.keywords:
+                        f = s.value.args[1]
+                        if isinstance(f, ast.Constant) and isinstance(f.value, str):
+                            out[s.targets[0].id] = tuple(f.value.replace(",", " ").split())
+                        elif isinstance(f, (ast.List, ast.Tuple)) and all(isinstance(e, ast.Constant) and isinstance(e.value, str) for e in f.elts):
+                            out[s.targets[0].id] = tuple(e.value for e in f.elts)
+            self.__dict__["_records"] = out
+        return self.__dict__["_records"]
+
     def subclasses(self, base: str) -> list:
         return [c for c in self.classes if base in self.mro(c)[1:]]
 
